@@ -127,8 +127,24 @@ def minimise(mod, script, cls, wall=60.0, is_known=None):
     ops = ddmin.ddmin(script['ops'], fails)
     out = dict(script)
     out['ops'] = ops
-    if hasattr(mod, 'simplify'):
-        for cand in mod.simplify(out):
+    def default_simplify(sc):
+        # schedule minimisation: switch one dimension of the schedule profile at a time from random to eager
+        cfg = sc.get('config') if isinstance(sc.get('config'), dict) else None
+        if cfg is None:
+            return
+        cur = dict(sc)
+        for dim in ('latency', 'frag', 'short_writes', 'order'):
+            prof = dict((cur.get('config') or {}).get('profile') or {})
+            if prof.get(dim) == 'eager':
+                continue
+            prof[dim] = 'eager'
+            cand = dict(cur)
+            cand['config'] = dict(cur['config'], profile=prof)
+            yield cand
+
+    simp = mod.simplify if hasattr(mod, 'simplify') else default_simplify
+    if True:
+        for cand in simp(out):
             if time.time() > deadline:
                 break
             try:
